@@ -285,13 +285,27 @@ func runC07(c *Ctx, idx int, o *Obs) {
 		}
 		o.Check(multif == (added > 0), "resolve_added_count", fmt.Sprintf("%s: multifurcating=%v but %d branches added", what, multif, added), inp)
 	}
-	for k := 0; k < 3; k++ {
+	for k := 0; k < 4; k++ {
 		seed := r.Int63()
 		t := mustParse(start)
+		prior := ""
+		switch k {
+		case 1: // the tree object has been used before: indexes, depths and cached subtree sizes are there
+			_ = t.ReinitIndexes()
+			prior = "ReinitIndexes; "
+		case 2:
+			_ = t.ReinitIndexes()
+			t = t.Clone()
+			prior = "ReinitIndexes; Clone; "
+		case 3:
+			t.ComputeDepths()
+			_ = t.UpdateTipIndex()
+			prior = "ComputeDepths; UpdateTipIndex; "
+		}
 		rand.Seed(seed)
 		t.Resolve()
 		o.Ev("Resolve", 1)
-		what := fmt.Sprintf("Resolve(seed %d)", seed)
+		what := fmt.Sprintf("%sResolve(seed %d)", prior, seed)
 		judgeResolve(what, modelOf(t))
 		checkStructure(o, t, what)
 	}
